@@ -1,1 +1,2 @@
 import Kanzi.Model.Normalize
+import Kanzi.Model.Protocol
